@@ -200,6 +200,13 @@ class Twin:
                 t["d"] = self.align(d, want, i)
                 t["idx"] = tidx
                 self.texec(t, i)
+        elif op == "truncate":
+            if rec.get("lower") is not None:
+                t["lower"] = A(rec["lower"])[cm[a]]
+            if rec.get("upper") is not None:
+                t["upper"] = A(rec["upper"])[cm[a]]
+            self.texec(t, i)
+            cm[rec["out"]] = list(cm[a])
         elif op == "update_sigma":
             t["Sigma"] = A(rec["Sigma"])[cm[a]]
             self.texec(t, i)
@@ -216,7 +223,7 @@ class Twin:
         omap = list(cm[a])
         if name == "sample":
             raise Skip()
-        if name in ("evaluate_ln", "evaluate", "call") and rec.get("ew"):
+        if name in ("evaluate_ln", "evaluate", "call", "trunc_call") and rec.get("ew"):
             t["x"] = A(rec["x"])[cm[a]]
         elif name == "integrate":
             kw = {}
@@ -275,7 +282,7 @@ class Twin:
         pobj, tobj = self.wp.slots[sid].obj, self.wt.slots[sid].obj
         # (the class may legitimately differ: slicing a diagonal / identity-diagonal conditional returns the
         #  equivalent non-diagonal class; equality of behaviour across classes is C15)
-        if type(pobj).__name__ == "NNControlGaussianConditional":
+        if type(pobj).__name__ == "NNControlGaussianConditional" or ref.kind_of(pobj) == "trunc":
             return
         # slicing commutes with the operation: op(obj).slice(cmap) vs op(obj.slice(idx))
         jnp = lib()["jnp"]
